@@ -240,7 +240,7 @@ func init() {
 	vrt.Register(&vrt.Prop{
 		ID: "C01", Level: "exploration",
 		Rule: "case 0: every single-gate circuit (5 ops) x forced permute bits (pa,pb) x all inputs x {distinct wires, same wire twice} x key sizes 16/24/32; " +
-			"other cases: a PRNG-generated circuit (dag/chain/layers/fan-out, gate mixes incl. OR/INV/XNOR-only), garbled 1-3 times with steered or random permute bits and a 16/24/32-byte key, " +
+			"other cases: a PRNG-generated circuit (dag/chain/layers/fan-out, gate mixes incl. OR/INV/XNOR-only), garbled 1-3 times with steered or random permute bits and a 16/24/32-byte key (in half of the cases one key buffer refilled in place between the garblings), " +
 			"evaluated on all assignments (<=8 input bits) or 64 sampled ones; plus parsed library circuits. Non-trivial = a non-free gate lies on a path to an output; distinct = hash of (circuit, randomness seed, key size).",
 		Assumptions: []string{"refc (bit-sliced truth tables, harness code) is the specification of plain evaluation",
 			"labels handed to Eval are chosen by the monitor directly from Garbled.Wires"},
@@ -307,8 +307,20 @@ func runC01(cs *vrt.Case) {
 		vecs, exh := allOrSampled(r, nin, 8, 64)
 		nontriv := refc.Depends(c)
 		reps := r.Range(1, 3)
+		// half of the cases hand every garbling of the circuit the same key
+		// buffer, refilled in place with a fresh key (a caller that keeps one
+		// key array per connection)
+		reuseKey := r.Bool()
+		klFixed := vrt.Pick(r, []int{16, 24, 32})
+		var keyBuf []byte
+		if reuseKey && reps < 2 {
+			reps = 2
+		}
 		for rep := 0; rep < reps; rep++ {
 			kl := vrt.Pick(r, []int{16, 24, 32})
+			if reuseKey {
+				kl = klFixed
+			}
 			st := &steer{r: r.Fork(), keep: r.Intn(3) == 0}
 			if r.Bool() {
 				for i := 0; i <= nin; i++ {
@@ -316,7 +328,16 @@ func runC01(cs *vrt.Case) {
 				}
 			}
 			seed := r.U64()
-			if !garbleEvalCheck(cs, fmt.Sprintf("random circuit rep %d", rep), c, st, vrt.NewRng(seed).Bytes(kl), vecs, true) {
+			key := vrt.NewRng(seed).Bytes(kl)
+			if reuseKey {
+				if keyBuf == nil {
+					keyBuf = make([]byte, kl)
+				}
+				copy(keyBuf, key)
+				key = keyBuf
+				cs.Count("garblings_with_reused_key_buffer", 1)
+			}
+			if !garbleEvalCheck(cs, fmt.Sprintf("random circuit rep %d", rep), c, st, key, vecs, true) {
 				break
 			}
 			if nontriv {
